@@ -35,9 +35,38 @@ pub struct Entry {
     pub zero_sized_elems: bool,
     pub encode: fn(&Val) -> desert::Result<Vec<u8>>,
     pub encode_all: fn(&Val) -> desert::Result<AllSinks>,
+    /// decodes a valid encoding and writes the value through every sink
+    pub sinks_from_bytes: fn(&[u8]) -> desert::Result<AllSinks>,
     /// writes the value into an existing stream (one context for several values)
     pub encode_in: fn(&Val, &mut SerializationContext<Vec<u8>>) -> desert::Result<()>,
     pub decode_in: DecodeIn,
+}
+
+impl AllSinks {
+    /// first disagreement between the sinks, if any
+    pub fn disagreement(&self) -> Option<String> {
+        let all = [
+            ("BytesMut", &self.bytes_mut),
+            ("serialize_to_bytes", &self.to_bytes),
+            ("serialize_to_byte_vec", &self.to_byte_vec),
+            ("custom recording output", &self.recording),
+            ("custom paged output", &self.paged),
+        ];
+        for (name, b) in all {
+            if *b != self.vec {
+                let at = b.iter().zip(self.vec.iter()).position(|(x, y)| x != y).unwrap_or(b.len().min(self.vec.len()));
+                return Some(format!(
+                    "{name} wrote {} bytes, Vec<u8> wrote {} bytes, first difference at offset {at}",
+                    b.len(),
+                    self.vec.len()
+                ));
+            }
+        }
+        if self.size_calc != self.vec.len() {
+            return Some(format!("SizeCalculator reports {} but {} bytes are written", self.size_calc, self.vec.len()));
+        }
+        None
+    }
 }
 
 /// a user-defined output that implements only the two required methods and records every call
@@ -92,15 +121,23 @@ fn encode_in<T: Bridge>(v: &Val, ctx: &mut SerializationContext<Vec<u8>>) -> des
     T::from_val(v).serialize(ctx)
 }
 
+fn sinks_from_bytes<T: Bridge>(b: &[u8]) -> desert::Result<AllSinks> {
+    let x: T = desert::deserialize(b)?;
+    all_sinks(&x)
+}
+
 fn encode_all<T: Bridge>(v: &Val) -> desert::Result<AllSinks> {
-    let x = T::from_val(v);
-    let vec = desert::serialize(&x, Vec::new())?;
-    let bytes_mut = desert::serialize(&x, BytesMut::new())?.to_vec();
-    let to_bytes = desert::serialize_to_bytes(&x)?.to_vec();
-    let to_byte_vec = desert::serialize_to_byte_vec(&x)?;
-    let size_calc = desert::serialize(&x, SizeCalculator::new())?.size();
-    let rec = desert::serialize(&x, RecordingSink::default())?;
-    let paged = desert::serialize(&x, PagedSink::new(7))?.contents();
+    all_sinks(&T::from_val(v))
+}
+
+fn all_sinks<T: Bridge>(x: &T) -> desert::Result<AllSinks> {
+    let vec = desert::serialize(x, Vec::new())?;
+    let bytes_mut = desert::serialize(x, BytesMut::new())?.to_vec();
+    let to_bytes = desert::serialize_to_bytes(x)?.to_vec();
+    let to_byte_vec = desert::serialize_to_byte_vec(x)?;
+    let size_calc = desert::serialize(x, SizeCalculator::new())?.size();
+    let rec = desert::serialize(x, RecordingSink::default())?;
+    let paged = desert::serialize(x, PagedSink::new(7))?.contents();
     Ok(AllSinks {
         vec,
         bytes_mut,
@@ -165,6 +202,7 @@ pub fn entry<T: Bridge>(name: &'static str, reg: &mut Registry) -> Entry {
         encode: encode::<T>,
         encode_all: encode_all::<T>,
         encode_in: encode_in::<T>,
+        sinks_from_bytes: sinks_from_bytes::<T>,
         decode_in: decode_in::<T>,
     }
 }
